@@ -19,6 +19,7 @@ import (
 
 	"github.com/element-of-surprise/coercion/workflow"
 	"github.com/element-of-surprise/coercion/workflow/utils/walk"
+	"github.com/google/uuid"
 )
 
 type stopObs struct {
@@ -203,6 +204,7 @@ func main() {
 		g := plangen.New(r, o)
 		p := g.Plan()
 		did := reshape(r, p)
+		ids := stampIDs(r, p, i)
 		paths := plancoq.PathIndex(p)
 		cx := plancoq.NewCtx(set.Lookup)
 		planTerm := cx.Plan(p)
@@ -245,7 +247,7 @@ func main() {
 			}
 		}
 		dist := map[string]any{"objects": total, "stops": len(obs), "reshaped": did, "blocks": len(p.Blocks),
-			"kept_differs": keptDiffers, "same_seq_walks": len(re), "seqs_with_actions": seqsWithActions, "change": "none"}
+			"kept_differs": keptDiffers, "same_seq_walks": len(re), "seqs_with_actions": seqsWithActions, "change": "none", "ids": ids}
 		input := map[string]any{"seed": core.Seed(), "index": i, "opts": o}
 		emit(w, fmt.Sprintf("walk-%d", i), "walk", planTerm, obs, total > 3, dist, input)
 
@@ -321,6 +323,131 @@ func main() {
 			map[string]any{"objects": o3.Calls, "stops": 2, "reshaped": did, "blocks": len(p.Blocks), "kept_differs": 0,
 				"same_seq_walks": 0, "seqs_with_actions": seqsWithActions, "change": "during-walk:" + live}, input)
 	}
+}
+
+// stampIDs gives the objects IDs (the walk must not look at them; the model does not): none at all, all
+// distinct, or k >= 2 different objects sharing ONE non-nil id (as when objects are stamped out by copying a
+// template by value): two actions, two sequences, a block and a group, an object and its own child, or a
+// random handful of any kind; the other objects nil or distinct.
+func stampIDs(r *core.Rand, p *workflow.Plan, i int) string {
+	type obj struct {
+		set  func(uuid.UUID)
+		kind string
+		kids []int // indices of its children
+	}
+	var objs []obj
+	add := func(kind string, set func(uuid.UUID)) int {
+		objs = append(objs, obj{set: set, kind: kind})
+		return len(objs) - 1
+	}
+	kid := func(parent, child int) { objs[parent].kids = append(objs[parent].kids, child) }
+	acts := func(parent int, as []*workflow.Action) {
+		for _, a := range as {
+			if a != nil {
+				kid(parent, add("action", func(u uuid.UUID) { a.ID = u }))
+			}
+		}
+	}
+	checks := func(parent int, k *workflow.Checks) {
+		if k != nil {
+			c := add("checks", func(u uuid.UUID) { k.ID = u })
+			kid(parent, c)
+			acts(c, k.Actions)
+		}
+	}
+	root := add("plan", func(u uuid.UUID) { p.ID = u })
+	for _, k := range []*workflow.Checks{p.BypassChecks, p.PreChecks, p.ContChecks, p.PostChecks, p.DeferredChecks} {
+		checks(root, k)
+	}
+	for _, b := range p.Blocks {
+		if b == nil {
+			continue
+		}
+		bi := add("block", func(u uuid.UUID) { b.ID = u })
+		kid(root, bi)
+		for _, k := range []*workflow.Checks{b.BypassChecks, b.PreChecks, b.ContChecks, b.PostChecks, b.DeferredChecks} {
+			checks(bi, k)
+		}
+		for _, q := range b.Sequences {
+			if q != nil {
+				qi := add("sequence", func(u uuid.UUID) { q.ID = u })
+				kid(bi, qi)
+				acts(qi, q.Actions)
+			}
+		}
+	}
+	mode := i % 4
+	if mode == 0 {
+		return "all-nil"
+	}
+	if mode == 1 || r.Chance(0.5) { // everything distinct (mode 1), or as the background of a shared id
+		for _, o := range objs {
+			o.set(plangen.V7(r))
+		}
+	}
+	if mode == 1 {
+		return "all-distinct"
+	}
+	ofKind := func(k string) (ix []int) {
+		for j, o := range objs {
+			if o.kind == k {
+				ix = append(ix, j)
+			}
+		}
+		return
+	}
+	two := func(ix []int) []int {
+		if len(ix) < 2 {
+			return nil
+		}
+		a := r.Intn(len(ix))
+		b := r.Intn(len(ix) - 1)
+		if b >= a {
+			b++
+		}
+		return []int{ix[a], ix[b]}
+	}
+	var chosen []int
+	what := ""
+	for try := 0; try < 12 && chosen == nil; try++ {
+		switch r.Intn(5) {
+		case 0:
+			chosen, what = two(ofKind("action")), "two-actions"
+		case 1:
+			chosen, what = two(ofKind("sequence")), "two-sequences"
+		case 2:
+			if b, k := ofKind("block"), ofKind("checks"); len(b) > 0 && len(k) > 0 {
+				chosen, what = []int{b[r.Intn(len(b))], k[r.Intn(len(k))]}, "block-and-group"
+			}
+		case 3:
+			var par []int
+			for j, o := range objs {
+				if len(o.kids) > 0 {
+					par = append(par, j)
+				}
+			}
+			if len(par) > 0 {
+				pa := par[r.Intn(len(par))]
+				chosen, what = []int{pa, objs[pa].kids[r.Intn(len(objs[pa].kids))]}, "object-and-its-child:"+objs[pa].kind
+			}
+		case 4:
+			if len(objs) >= 3 {
+				n := r.Range(2, 4)
+				for len(chosen) < n {
+					chosen = append(chosen, r.Intn(len(objs)))
+				}
+				what = "random-handful"
+			}
+		}
+	}
+	if chosen == nil {
+		return "all-distinct-or-nil"
+	}
+	u := plangen.V7(r)
+	for _, j := range chosen {
+		objs[j].set(u)
+	}
+	return "shared:" + what
 }
 
 func emit(w *core.Writer, id, kind, planTerm string, obs []stopObs, nontrivial bool, dist map[string]any, input any) {
